@@ -10,14 +10,16 @@ PARALLEL = True
 MANIFEST = {
     'text': 'Kernel-checked theorems (PMV/Props/C17.lean) about a code-shaped Lean model of Qube.shrink/unshrink '
             '(PMV/Model/Shrink.lean): gathering by an antimask is natural w.r.t. every element-wise operation lifted with '
-            'NumPy broadcasting (operands with fewer or more axes than the antimask included, unconditional); the fully-masked '
-            'stand-in is absorbed by every operator of the catalogue; element-wise expression trees of any depth are '
-            'congruences for observational equality (derivatives included); and, for operands whose trailing axes are the '
-            "antimask's (derivative-free at the code level), the code-shaped shrink/unshrink commute with every tree on the "
-            'antimask when the cached path is not taken (partial: see DESIGN.d/C17.md for the unrestricted statements kept as '
-            'FULL comments). The model is tied to /repo on every run: the same operands, antimask, tree and switches go to '
-            'the real code and to the compiled model under all four switch settings and the canonical observations are '
-            'diffed; the model-independent oracle evaluates every case both ways on the real code.',
+            'NumPy broadcasting (gather_map2); the fully-masked stand-in is absorbed by every operator of the catalogue; '
+            'unshrink(shrink(x)) reproduces x on the antimask (unshrink_shrink); for EVERY element-wise expression tree of any '
+            'depth, every array antimask, all operands that broadcast into the grid (shape (), fewer or more axes than the '
+            'antimask, unit axes, any mask representation, with derivatives) and all four switch settings, evaluating on '
+            'shrunken operands and unshrinking agrees with direct evaluation at every selected element (shrink_commutes), '
+            'hence any two switch settings agree (switches_agree); the cached path for a HELD shrunken object is correct '
+            'exactly when the original is unmodified since it was shrunk (unshrink_held_unmodified; counterexample otherwise '
+            '= KF-C18-1). The model is tied to /repo on every run: the same operands, antimask, tree and switches go to the '
+            'real code and to the compiled model under all four switch settings and the canonical observations are diffed; '
+            'the model-independent oracle evaluates every case both ways on the real code.',
     'design': 'DESIGN.md §3 C17, DESIGN.d/C17.md',
     'technique': 'Lean 4 proof (index algebra of broadcasting by induction over shapes, congruence by induction over '
                  'expression trees) + model/code correspondence on IEEE doubles',
@@ -29,15 +31,20 @@ RULE = ('operand tuples (1-3 Scalars) with broadcast-compatible shapes from a ta
         'axes, operands with fewer/more axes than the antimask and fully masked operands, in every mask representation; '
         'antimasks: True, False, arrays all True / all False / single True / random over the grid, a suffix of it, or with '
         'one more axis; element-wise trees of depth 0-3; the four switch settings; operands with 0-2 derivatives (own masks '
-        'sometimes). Non-trivial = array antimask selecting some but not all positions, or operands that broadcast. '
-        'Distinct = distinct request line.')
+        'sometimes); histories: operand and antimask memory layout (C, Fortran, strided view, negative stride, read-only), '
+        'caches warmed before use (antimask, wod, corners, slicer, an earlier shrink) on operands and on shrunken operands, '
+        'the two computations on the SAME operand objects in either order, unshrink called twice. Non-trivial = array '
+        'antimask selecting some but not all positions, or operands that broadcast. Distinct = distinct request line.')
 ASSUMPTIONS = ['the antimask is not stretched: on the axes it covers, its lengths are those of the broadcast result '
                '(an antimask with a unit axis where an operand is longer is outside the property: the shrunk operands '
-               'no longer agree on the length of the gathered axis)',
+               'no longer agree on the length of the gathered axis); in Lean: hypothesis Fits',
                'derivatives are compared where the element itself is unmasked (a masked element has no observable '
                'derivative)',
-               'the cached path of unshrink assumes the cached back-pointer is current (C18 invariant); in the harness every '
-               'shrunk operand is fresh from shrink()']
+               'operands are not modified between shrink and unshrink (the property does not quantify over such histories); '
+               'for a held shrunken object the cached path needs the C18 invariant "the cached back-pointer is current" '
+               '(BackCurrent / unshrink_held_unmodified; its failure is KF-C18-1, proved as unshrink_held_counterexample)',
+               'element-wise operations are modelled by their per-element code lifted with broadcasting (operator dispatch '
+               'and the mask representation of operator results are not modelled)']
 TRUSTED_EXTRA = ['IEEE-754 double arithmetic: + - * / sqrt are correctly rounded both in NumPy and in Lean\'s Float, so the '
                  'model and the code agree bit for bit when they apply the same formulas in the same order']
 
@@ -63,26 +70,69 @@ def bits(f):
     return struct.unpack('<Q', struct.pack('<d', float(f) + 0.0))[0]
 
 
+def with_prov(a, prov):
+    """the same array content with another memory layout: Fortran order, a strided view of a larger buffer,
+    a negative-stride view, or a read-only array"""
+    a = np.asarray(a)
+    if a.ndim == 0 or prov in (None, 'c'):
+        return a
+    if prov == 'f':
+        return np.asfortranarray(a)
+    if prov == 'view':
+        big = np.zeros(a.shape[:-1] + (2 * a.shape[-1] + 1,), dtype=a.dtype)
+        big[..., 1::2] = a
+        big[..., 0::2] = 77 if a.dtype != bool else True
+        return big[..., 1::2]
+    if prov == 'rev':
+        return a[::-1].copy()[::-1]
+    if prov == 'ro':
+        a = a.copy(); a.flags.writeable = False
+        return a
+    raise KeyError(prov)
+
+
 def build(o):
     shape = tuple(o['shape'])
     dt = o.get('dtype', 'float')
+    prov = o.get('prov')
     vals = np.array(o['vals'], dtype='float64').reshape(shape) / 2.
     if dt == 'int':
         vals = np.array(o['vals'], dtype='int64').reshape(shape)
     m = mk_mask(o['mask'], shape)
+    if isinstance(m, np.ndarray) and not isinstance(o['mask'], dict):
+        m = with_prov(m, prov)
     if not shape:
         vals = vals[()].item()
+    else:
+        vals = with_prov(vals, prov)
     q = Scalar(vals, m)
     for k, dvals, dmask in o['derivs']:
         dv = np.array(dvals, dtype='float64').reshape(shape) / 2.
-        q.insert_deriv(k, Scalar(dv if shape else float(dv), mk_mask(dmask, shape)))
+        dm = mk_mask(dmask, shape)
+        if isinstance(dm, np.ndarray):
+            dm = with_prov(dm, prov)
+        q.insert_deriv(k, Scalar(with_prov(dv, prov) if shape else float(dv), dm))
     return q
+
+
+def warm(q, what, am):
+    """fill caches before the object is used (antimask, wod, corners, slicer; a previous shrink)"""
+    for w in what:
+        if w == 'antimask': q.antimask
+        elif w == 'wod': q.wod
+        elif w == 'corners' and q._shape_: q.corners
+        elif w == 'slicer' and q._shape_: q._slicer
+        elif w == 'shrink0':
+            try:
+                q.shrink(am if isinstance(am, bool) else np.ones(am.shape, bool))
+            except Exception:
+                pass
 
 
 def mk_am(am):
     if am == 'T': return True
     if am == 'F': return False
-    return np.array(am['bits'], dtype=bool).reshape(am['shape'])
+    return with_prov(np.array(am['bits'], dtype=bool).reshape(am['shape']), am.get('prov'))
 
 
 def selector(am, grid):
@@ -135,31 +185,62 @@ class Switches:
         return False
 
 
-def run_direct(case):
-    sel = selector(case['am'], tuple(case['grid']))
-    try:
-        with warnings.catch_warnings():
-            warnings.simplefilter('error')
-            env = [build(o) for o in case['opds']]
-            return obs(as_qube(ev(case['tree'], env)), sel)
-    except Exception as e:
-        return C.exc_name(e)
-
-
-def run_via(case):
+def run_both(case):
+    """(via shrinking, direct).  'order': the two computations on separately built operands (default) or on the SAME
+    operand objects, direct first or via first (warm caches, self-referencing 'unshrunk' entries of shapeless operands);
+    'warm': cache entries filled before use; 'swarm': likewise on the shrunken operands; 'twice': unshrink twice."""
     sel = selector(case['am'], tuple(case['grid']))
     am = mk_am(case['am'])
-    with Switches(tuple(case['cfg'])):
+    order = case.get('order', 'separate')
+
+    def direct(env):
         try:
             with warnings.catch_warnings():
                 warnings.simplefilter('error')
-                env = [build(o) for o in case['opds']]
-                senv = [x.shrink(am) for x in env]
-                r = as_qube(ev(case['tree'], senv))
-                u = r.unshrink(am, tuple(case.get('ushape', [])))
-                return obs(u, sel)
+                return obs(as_qube(ev(case['tree'], env)), sel)
         except Exception as e:
             return C.exc_name(e)
+
+    def via(env):
+        with Switches(tuple(case['cfg'])):
+            try:
+                with warnings.catch_warnings():
+                    warnings.simplefilter('error')
+                    senv = [x.shrink(am) for x in env]
+                    for x in senv:
+                        warm(x, case.get('swarm', []), am)
+                    r = as_qube(ev(case['tree'], senv))
+                    u = r.unshrink(am, tuple(case.get('ushape', [])))
+                    if case.get('twice'):
+                        u = r.unshrink(am, tuple(case.get('ushape', [])))
+                    return obs(u, sel)
+            except Exception as e:
+                return C.exc_name(e)
+
+    def mkenv():
+        env = [build(o) for o in case['opds']]
+        for x in env:
+            warm(x, case.get('warm', []), am)
+        return env
+
+    try:
+        if order == 'separate':
+            d = direct(mkenv()); v = via(mkenv())
+        elif order == 'direct-first':
+            env = mkenv(); d = direct(env); v = via(env)
+        else:
+            env = mkenv(); v = via(env); d = direct(env)
+    except Exception as e:            # operand construction itself failed
+        d = v = C.exc_name(e)
+    return v, d
+
+
+def run_direct(case):
+    return run_both(case)[1]
+
+
+def run_via(case):
+    return run_both(case)[0]
 
 
 def impl(case):
@@ -171,7 +252,8 @@ def impl(case):
                 return obs(y, np.ones(y._shape_, bool))
             except Exception as e:
                 return C.exc_name(e)
-    return [run_via(case), run_direct(case)]
+    v, d = run_both(case)
+    return [v, d]
 
 
 # ------------------------------------------------------------------ direct oracle: both ways on the real code
@@ -190,10 +272,9 @@ def signature(case, what):
 def oracle(case):
     if case.get('op') == 'shrink':
         return None
-    direct = run_direct(case)
+    via, direct = run_both(case)
     if isinstance(direct, str):
         return None                    # the direct computation is itself rejected: nothing to compare
-    via = run_via(case)
     if isinstance(via, str):
         return (signature(case, 'raises'), 'direct evaluation succeeds, shrink/evaluate/unshrink raises %s (switches %s)'
                 % (via, CFG_NAMES[tuple(case['cfg'])]))
@@ -317,7 +398,10 @@ def mk(case):
     while any(x[0] != 'var' for x in t):
         t = [s for x in t if x[0] != 'var' for s in x[1:]]
         d += 1
-    case['kind'] = '%s:%s:depth%d:%s' % (CFG_NAMES[tuple(case['cfg'])], amk, d, 'model' if case['req'] is not None else 'oracle-only')
+    hist = '+'.join(x for x in ('prov' if any('prov' in o for o in case['opds']) else '', 'warm' if case.get('warm') or case.get('swarm') else '',
+                                case.get('order', 'separate') if case.get('order', 'separate') != 'separate' else '',
+                                'twice' if case.get('twice') else '') if x) or 'plain'
+    case['kind'] = '%s:%s:depth%d:%s:%s' % (CFG_NAMES[tuple(case['cfg'])], amk, d, 'model' if case['req'] is not None else 'oracle-only', hist)
     return case
 
 
@@ -329,7 +413,28 @@ def scenario(rng, depth, ops1, ops2, dtype='float'):
     am, g = rand_am(rng, grid, shapes)
     opds = [rand_opd(rng, s, dtype=dtype) for s in shapes]
     tree = rand_tree(rng, depth, nv, ops1, ops2)
-    return {'am': am, 'grid': g, 'tree': tree, 'opds': opds}
+    sc = {'am': am, 'grid': g, 'tree': tree, 'opds': opds}
+    return history(rng, sc)
+
+
+PROVS = ['c', 'f', 'view', 'rev', 'ro']
+WARM = ['antimask', 'wod', 'corners', 'slicer', 'shrink0']
+
+
+def history(rng, sc, p=0.5):
+    """operand provenance (memory layout), warm caches, shared operand objects, repeated unshrink"""
+    if rng.random() < p:
+        sc['opds'] = [dict(o, prov=rng.choice(PROVS)) if not isinstance(o['mask'], dict) else o for o in sc['opds']]
+        if not isinstance(sc['am'], str):
+            sc['am'] = dict(sc['am'], prov=rng.choice(PROVS))
+    if rng.random() < p:
+        sc['warm'] = sorted(rng.sample(WARM, rng.randint(1, 3)))
+    if rng.random() < p / 2:
+        sc['swarm'] = sorted(rng.sample(WARM[:4], rng.randint(1, 2)))
+    sc['order'] = rng.choice(['separate', 'separate', 'direct-first', 'via-first'])
+    if rng.random() < 0.2:
+        sc['twice'] = True
+    return sc
 
 
 def gen_cases(rng, tier):
@@ -365,9 +470,9 @@ def gen_cases(rng, tier):
                 n = int(np.prod(full, dtype=int))
                 am = {'shape': list(full), 'bits': [i % 2 == 0 or rng.random() < 0.3 for i in range(n)]}
                 o = rand_opd(rng, shape, nderiv=rng.choice([1, 2]), maskmode=rng.choice(['none', 'rand']))
+                sc = history(rng, {'am': am, 'grid': list(np_bcast(full, shape)), 'tree': [op, ['var', 0]], 'opds': [o]}, p=0.4)
                 for cfg in CFGS:
-                    cases.append(mk({'cfg': list(cfg), 'am': am, 'grid': list(np_bcast(full, shape)), 'tree': [op, ['var', 0]],
-                                     'opds': [o]}))
+                    cases.append(mk(dict(sc, cfg=list(cfg))))
     # 2. generated scenarios, the four switch settings each
     reps = 8000 if thorough else 350
     for _ in range(reps):
